@@ -63,6 +63,7 @@ type SchemaCase struct {
 	Modelled bool     `json:"modelled"` // every statement has a meaning in Model/TxnIdx.lean
 	Initial  []IdxDef `json:"initial"`
 	Keyless  bool     `json:"keyless,omitempty"`
+	Cons     *ConsSchema `json:"cons,omitempty"`
 }
 
 // XStmt is one statement of an idx/cons program: SQL for dolt, optional line for the model.
